@@ -236,6 +236,26 @@ def complex_cases(tier, seed):
             elif pk == "mat": toks.append(fmt_ccrs(n, pval))
             toks += [fmt_cvec(f), fmt_cvec(x0)]
             out.append(VtCase(cid, "c", solver, " ".join(toks), kc.solve_line(cid, solver, side, S, **prm)))
+    # finite termination on genuinely complex data: GMRES-type methods without restart (M = n, maxiter = n) reach the solution of an
+    # n x n system in n steps -- which they only do when the Arnoldi coefficients are <w, v_k> with the conjugate on the right vector
+    for solver in ("gmres", "fgmres", "lgmres"):
+        for si in range(4 if tier == "quick" else 16):
+            n = r.choice([3, 5, 8])
+            A = complex_matrix(r, n, hermitian=False)
+            pk, pval, prow = complex_precond(r, n, solver, r.choice(["id", "diag"]), A)
+            f = [(dyc(r, 8), dyc(r, 8)) for _ in range(n)]
+            if all(a == 0 or b == 0 for a, b in f): f[0] = (F(1), F(-1, 2))
+            x0 = [(dyc(r, 4, (1, 2)), dyc(r, 4, (1, 2))) for _ in range(n)]
+            side = kc.side_for(r, solver)
+            prm = kc.dyadic_prm(r, maxiter=n, M=n, K=0, tol=F(1, 2 ** 60))
+            S = kc.Sys(2 * n, cexp_rows(n, A), "id" if pk == "id" else "mat", None if pk == "id" else cexp_rows(n, prow),
+                       cexp_vec(f), cexp_vec(x0), False)
+            cid = "vf%d" % len(out)
+            toks = [cid, "cx.solve", solver, side, pk, kc.fmt_prm(**prm), fmt_ccrs(n, A)]
+            if pk == "diag": toks.append(fmt_cvec(pval))
+            toks += [fmt_cvec(f), fmt_cvec(x0)]
+            c = VtCase(cid, "c", solver, " ".join(toks), kc.solve_line(cid, solver, side, S, **prm)); c.fin = n
+            out.append(c)
     return out
 
 
@@ -292,6 +312,18 @@ def run(ctx, vcases, account, TMO=300):
                                       op="vt.solve:" + c.solver, size=len(c.impl),
                                       theorem="correspondence drv_krylov_vt (%s on static_matrix<Q,2,2> via make_solver, exact) vs the extracted model "
                                               "Krylov.v on the expanded scalar system; spec theorems C01_*" % c.solver))
+        # finite termination (complex, no restart): the reported residual after n steps (its truthfulness is checked below)
+        for c in cs:
+            if c.cid.startswith("vf"):          # (the cases travel as text lines: recognised by their id)
+                pr = kc.parse_result(impl.get(c.cid) or "")
+                ctx["stats"]["oracle_checks"] += 1
+                try: bad = pr is None or F(pr[1]) > F(1, 10 ** 9)
+                except (ValueError, ZeroDivisionError): bad = True        # nan / inf
+                if bad:
+                    ctx["stats"]["oracle_fail"] += 1
+                    fails.append(dict(kind="counterexample", case=c.impl, case_lines=case_lines(c), impl=(impl.get(c.cid) or "")[:2000], model="residual <= 1e-9 after n steps (maxiter = M = n)",
+                                      op="vt.fin:" + c.solver, size=len(c.impl), oracle=dict(op="finite-termination"),
+                                      theorem="C05 finite termination on a complex system: %s without restart reaches the solution of an n x n system in n steps" % c.solver))
         # vt-2 / vt-3: truthfulness on the expanded system
         olines = []
         for c in cs:
